@@ -420,4 +420,72 @@ theorem labels_same_iff (m : Mode) (shape : List Nat) (data : List Int) (bshape 
       have e2 := (hb.det hrj).1
       rw [hget i fi.1, hget j fj.1, hvi, hvj, ← e1, ← e2]
 
+/-! ### flat indices and positions (F9) -/
+
+/-- `unravel` of an in-range flat index is inside the box and ravels back -/
+theorem unravel_inside_ravel : ∀ (shape : List Nat) (i : Nat), i < shapeSize shape →
+    inside shape (unravelI shape i) = true ∧ ravelI shape (unravelI shape i) = i := by
+  intro shape
+  induction shape with
+  | nil =>
+    intro i hi
+    simp only [shapeSize] at hi
+    have : i = 0 := by omega
+    subst this
+    simp [unravelI, unravel, inside, ravelI]
+  | cons n ds ih =>
+    intro i hi
+    simp only [shapeSize] at hi
+    have hS : 0 < shapeSize ds := by
+      by_contra hc
+      have : shapeSize ds = 0 := by omega
+      rw [this] at hi; simp at hi
+    obtain ⟨a, b⟩ := ih (i % shapeSize ds) (Nat.mod_lt _ hS)
+    have hdiv : i / shapeSize ds < n := (Nat.div_lt_iff_lt_mul hS).mpr hi
+    unfold unravelI at a b ⊢
+    simp only [unravel, List.map_cons, inside, ravelI, Int.ofNat_eq_coe]
+    refine ⟨?_, ?_⟩
+    · simp only [Bool.and_eq_true, decide_eq_true_eq]
+      exact ⟨⟨Int.natCast_nonneg _, by exact_mod_cast hdiv⟩, a⟩
+    · rw [b]
+      have : ((i / shapeSize ds : Nat) : Int).toNat = i / shapeSize ds := Int.toNat_natCast _
+      rw [this]
+      exact Nat.div_add_mod' i (shapeSize ds)
+
+/-- a position inside the box ravels to an in-range flat index and unravels back -/
+theorem ravel_inside_unravel : ∀ (shape : List Nat) (p : List Int), p.length = shape.length →
+    inside shape p = true → ravelI shape p < shapeSize shape ∧ unravelI shape (ravelI shape p) = p := by
+  intro shape
+  induction shape with
+  | nil =>
+    intro p hp _
+    cases p with
+    | nil => simp [ravelI, shapeSize, unravelI, unravel]
+    | cons a b => simp at hp
+  | cons n ds ih =>
+    intro p hp hin
+    cases p with
+    | nil => simp at hp
+    | cons a ps =>
+      simp only [inside, Bool.and_eq_true, decide_eq_true_eq] at hin
+      obtain ⟨⟨h0, h1⟩, hin'⟩ := hin
+      obtain ⟨c, d⟩ := ih ps (by simpa using hp) hin'
+      have hS : 0 < shapeSize ds := by omega
+      have ha : a.toNat < n := by omega
+      simp only [ravelI, shapeSize]
+      constructor
+      · have : (a.toNat + 1) * shapeSize ds ≤ n * shapeSize ds := Nat.mul_le_mul_right _ (by omega)
+        have h2 : (a.toNat + 1) * shapeSize ds = a.toNat * shapeSize ds + shapeSize ds := by
+          rw [Nat.add_mul]; simp
+        omega
+      · unfold unravelI at d ⊢
+        simp only [unravel, List.map_cons, Int.ofNat_eq_coe]
+        have e1 : (a.toNat * shapeSize ds + ravelI ds ps) / shapeSize ds = a.toNat := by
+          rw [Nat.mul_comm, Nat.mul_add_div hS, Nat.div_eq_of_lt c]; simp
+        have e2 : (a.toNat * shapeSize ds + ravelI ds ps) % shapeSize ds = ravelI ds ps := by
+          rw [Nat.mul_comm, Nat.mul_add_mod, Nat.mod_eq_of_lt c]
+        rw [e1, e2, d]
+        have : ((a.toNat : Nat) : Int) = a := by omega
+        rw [this]
+
 end Mahotas.C03
